@@ -24,7 +24,7 @@ func main() {
 	if pool.IsWorker() {
 		pool.Serve(map[string]pool.Handler{
 			"val": valWorker, "bind": bindWorker, "bytes": byteWorker, "bytebind": byteBindWorker,
-			"dec": decWorker, "pw": pwWorker,
+			"dec": decWorker, "pw": pwWorker, "conc": concWorker,
 		})
 	}
 	if f := os.Getenv("VERIF_C14_PROBE"); f != "" {
@@ -55,6 +55,11 @@ func main() {
 			f(lo, hi)
 		}
 	}
+	// 0. schedule exploration: two concurrent calls of each codec builtin
+	nConc := len(concScenarios())
+	chunk(int64(nConc), 2, func(lo, hi int64) {
+		shards = append(shards, pool.Shard{Kind: "conc", Arg: concShard{Lo: int(lo), Hi: int(hi), Seed: seed}})
+	})
 	// 1. value trees -> json_encode / serialize, reference read-back, own decoders
 	var nTrees int64
 	for fi, f := range valueFamilies(quick) {
@@ -160,14 +165,16 @@ func main() {
 	// three phases; the wall-clock budget is only consulted between phases
 	phaseOf := func(sh pool.Shard) int {
 		switch sh.Kind {
-		case "val", "bind", "bytes", "bytebind":
+		case "conc":
 			return 0
-		case "dec":
+		case "val", "bind", "bytes", "bytebind":
 			return 1
+		case "dec":
+			return 2
 		}
-		return 2
+		return 3
 	}
-	phaseNames := []string{"value trees + byte strings + script binding", "json_decode / unserialize inputs", "protobuf wire"}
+	phaseNames := []string{"concurrent calls", "value trees + byte strings + script binding", "json_decode / unserialize inputs", "protobuf wire"}
 	var total, calls int64
 	famCount := map[string]int64{}
 	famMs := map[string]int64{}
@@ -176,7 +183,7 @@ func main() {
 	outcomes := map[string]int64{}
 	samples := 0
 	var done []string
-	for ph := 0; ph < 3; ph++ {
+	for ph := 0; ph < 4; ph++ {
 		var part []pool.Shard
 		for _, sh := range shards {
 			if phaseOf(sh) == ph {
@@ -197,6 +204,9 @@ func main() {
 			json.Unmarshal(rb, &r)
 			switch r.Kind {
 			case "count":
+				if r.Count > 0 && strings.HasPrefix(r.Fam, "concurrent") {
+					c.Add("interleavings_explored", r.Count)
+				}
 				total += r.N
 				calls += r.Calls
 				famCount[r.Fam] += r.N
@@ -221,6 +231,8 @@ func main() {
 			case "note":
 				if r.Key == "self-test" {
 					c.HarnessError("%s", r.Detail)
+				} else if r.Key == "incomplete" {
+					c.NotExhaustive(r.Detail)
 				} else {
 					fmt.Fprintln(os.Stderr, "note:", r.Detail)
 				}
@@ -248,6 +260,7 @@ func main() {
 	c.Assume("a string that is not valid UTF-8 has no JSON form: json_encode may refuse it (false / throw); emitting a different string is a read-back failure")
 	c.Assume("rawurlencode output is additionally read back as a query value through net/url.ParseQuery (RFC 3986 leaves no reserved character unescaped)")
 	c.Assume("protowire nesting: top level is level 1, each message/group content one deeper, max_depth = N admits N levels (pinned for messages by std/protowire TestDepthLimit); a field configured both packed and message may be read either way")
+	c.Assume("concurrent part: two threads, one call each, same builtin, shared VM; interleavings only at the points govis instruments (package-level variables, map fields, mutexes, channels of the origami packages); three or more threads and mixed builtins are not explored")
 	c.Assume("outside the bound: value trees deeper than 3 / wider than 3, decoder inputs that are neither short, nor within edit distance 1 of a reference encoding, nor a ladder; objects (O:) in serialize; var_export; JSON flags; hash algorithms without a Go standard-library reference (xxh3)")
 	if os.Getenv("VERIF_C14_ONLY") == "" && c.Exhaustive && (len(outcomes) < 12 || outcomes["tree ok"] == 0 || outcomes["json well-formed, agrees"] == 0 || outcomes["protowire cases"] == 0) {
 		c.HarnessError("vacuous: outcomes %v", outcomes)
